@@ -206,6 +206,8 @@ def run_groups(harnesses, tier, repo, work):
             r['undecided'].append('kani harness %s: no verdict' % h)
             continue
         r['samples'].append({'kani_harness': h, 'contract': H[h][3], 'bound': H[h][4], 'status': x['status'], 'time_s': x['time']})
+        if H[h][1] == 'crate':
+            r['assumptions'].append('kani %s (%s): %s' % (h, H[h][3], H[h][4]))
         if x['status'] == 'SUCCESSFUL':
             if x['covers'] is not None and x['covers'][0] != x['covers'][1]:
                 r['undecided'].append('kani harness %s: a cover property is unsatisfiable (vacuous precondition?)' % h)
